@@ -59,6 +59,11 @@ def summarize(w):
         c = kinds.setdefault('cancel:' + ev['how'], [0, 0])
         c[0] += 1
         c[1] += 1
+    nst = len(w.knobs.get('stalls') or [])
+    if nst:
+        kinds['stalled-thread'] = [nst, sim.stalls]
+    if w.knobs.get('fs_latency', 'none') != 'none':
+        kinds['slow-fs-call:' + w.knobs['fs_latency']] = [1, 1 if getattr(w.fs, 'slow_calls', 0) else 0]
     if sim.interrupts_delivered:
         c = kinds.setdefault('ctrl-c', [0, 0])
         c[0] += sim.interrupts_delivered
